@@ -10,7 +10,7 @@
      table_ok T          in every plain struct the JSON names are pairwise different ignoring case, and no pointer
                          points at something that itself prints as null
      hook_law sd         classification of a struct's (MarshalJSON, UnmarshalJSON) pair *)
-From Coq Require Import List String Bool ZArith NArith Ascii.
+From Coq Require Import List String Bool ZArith NArith Ascii Permutation.
 From MV Require Import Lib.GoJson Lib.GoJsonFacts Gen.CfgTypes Model.ConfigRT Model.EffConfig Proofs.ConfigRT Proofs.ConfigRTFull Proofs.EffConfig.
 Import ListNotations.
 Open Scope string_scope.
@@ -175,9 +175,58 @@ Example c19_example_full :
   json_eqb (encode cfg_structs 64 (TNamed "v2.MOSNConfig") w_cfg) w_doc = false.
 Proof. exact example_full. Qed.
 
-(* STILL OPEN (kept under _partial): path (directory) mode of RouterConfiguration / ClusterManagerConfig keeps the items
-   in files; the file naming is modelled (theorems c19_file_name_...) but the directory itself is not part of the model's
-   documents, so WF demands inline mode (inline_side) and decode gives no result for a non-empty path: *)
+(* PATH (DIRECTORY) MODE of RouterConfiguration / ClusterManagerConfig.  The directory is a finite map file name ->
+   document (Model/ConfigRT.v: dir, path_write = what MarshalJSON does to it - write one file per item, a later item with
+   the same file name replacing the earlier file, then remove every other file; path_read = what UnmarshalJSON does - list
+   sorted by name, skip what the loader does not accept, decode the rest).  Under the EXPLICIT no-collision premise (no
+   two items share a file name; c19_file_name_collide_iff says exactly when they do), for any directory to start from
+   (stale files), any number of items of a type t of the generated graph, each well-formed, whose document decodes to an
+   item of the same name (premises checked on the real code on every run): the directory reads back to as many items as
+   were written, and dumping those - into any directory - gives the directory of the first dump, file by file.  The file
+   names are the canonical ones (c19_file_name_ops: the order read from the source is canon_ops). *)
+Theorem c19_path_mode_dir_roundtrip : forall fuel t (name_of : val -> string) (d : dir) (items : list val),
+  NoDup (map fst d) ->
+  NoDup (map (fun it => file_name src_max_file_path canon_ops (name_of it)) items) ->
+  ty_ok cfg_structs t = true ->
+  (forall it, In it items ->
+     WF cfg_structs t it /\ fuel_free (encode cfg_structs fuel t it) = true /\
+     exists v', decode cfg_structs fuel t (encode cfg_structs fuel t it) = Some v' /\ name_of v' = name_of it) ->
+  exists l,
+    path_read loader_accepts (decode cfg_structs fuel t)
+      (path_write (fun it => file_name src_max_file_path canon_ops (name_of it)) (encode cfg_structs fuel t) d items) = Some l /\
+    List.length l = List.length items /\
+    forall d', NoDup (map fst d') ->
+      Permutation (path_write (fun it => file_name src_max_file_path canon_ops (name_of it)) (encode cfg_structs fuel t) d' l)
+                  (path_write (fun it => file_name src_max_file_path canon_ops (name_of it)) (encode cfg_structs fuel t) d items).
+Proof. exact path_mode_dir_roundtrip_cfg. Qed.
+Print Assumptions c19_path_mode_dir_roundtrip.
+
+(* generic form, for any item type, naming and coder: after the write the directory holds exactly one file per item and
+   nothing else; items that are their own reload come back as they are, up to the order of the listing *)
+Theorem c19_path_mode_dir_content : forall (A : Type) (fn : A -> string) (enc : A -> json) (d : dir) (items : list A),
+  NoDup (map fst d) -> NoDup (map fn items) ->
+  forall k x, In (k, x) (path_write fn enc d items) <-> exists it, In it items /\ k = fn it /\ x = enc it.
+Proof. exact (fun A fn enc d items => path_write_in fn enc d items). Qed.
+Theorem c19_path_mode_dir_identity : forall (A : Type) (fn : A -> string) (enc : A -> json)
+    (accepts : string -> bool) (dec : json -> option A) (d : dir) (items : list A),
+  NoDup (map fst d) -> NoDup (map fn items) ->
+  (forall it, In it items -> accepts (fn it) = true) ->
+  (forall it, In it items -> dec (enc it) = Some it) ->
+  exists l, path_read accepts dec (path_write fn enc d items) = Some l /\ Permutation l items.
+Proof. exact (fun A fn enc => path_roundtrip fn enc). Qed.
+(* WITHOUT the premise the property is false (the listed finding): of two items with one file name only the second is
+   in the directory *)
+Theorem c19_path_mode_collision_loses : forall a b : string,
+  a <> b -> file_name 128 canon_ops a = file_name 128 canon_ops b ->
+  map fst (path_write (file_name 128 canon_ops) (fun n => JStr n) [] [a; b]) = [file_name 128 canon_ops b] /\
+  map snd (path_write (file_name 128 canon_ops) (fun n => JStr n) [] [a; b]) = [JStr b].
+Proof. exact path_collision_loses. Qed.
+
+(* STILL OPEN (kept under _partial): the directory is not threaded through `encode` / `decode` of the enclosing document -
+   the container-level theorem above is about the directory of ONE container; in the whole-document theorem
+   c19_roundtrip_full, WF demands inline mode (inline_side) and the model's decode gives no result for a non-empty path.
+   Items with an empty name get a file named after the clock (not modelled; the harness never generates them in path
+   mode). *)
 Theorem c19_path_mode_partial : forall tgt hidden pathf inlf z sub p,
   iget [pathf] sub = Some (VStr p) -> p <> "" -> inline_in tgt hidden pathf inlf z sub = None.
 Proof.
